@@ -112,7 +112,8 @@ theorem gcsOpts_refines (sched : Sched) (mode : Mode) (r : Raw) :
   simp only [genOpts, gcsOpts, Gen.Default.gcsOpts, resolve, lower_name, name_sge, name_pbs, name_slurm, name_array, name_single,
     mode_valid, sched_valid, Bool.not_true, Bool.false_eq_true, if_false, Py.bind_ok]
   refine bind_congr_map id ?_ (fun nt => ?_)
-  · simp [threads1]
+  · simp only [threads1, id]
+    by_cases h1 : isNone r.numThreads = true <;> by_cases h2 : isNone r.numWorkers = true <;> simp [h1, h2]
   refine bind_congr_map id ?_ (fun hms => ?_)
   · simp only [timeHMS, timePart, id]
     cases h1 : isNone r.hours <;> cases h2 : isNone r.minutes <;> cases h3 : isNone r.seconds <;>
@@ -128,7 +129,9 @@ theorem gcsOpts_refines (sched : Sched) (mode : Mode) (r : Raw) :
       by_cases h3 : hasSub (chars! "mamba activate") r.shellSetup = true <;> by_cases h4 : r.condaEnv = .bool true <;>
       simp [h1, h2, h3, h4] <;> (repeat' split) <;> simp_all
   refine bind_congr_map id ?_ (fun nt2 => ?_)
-  · simp [threads2]
+  · simp only [threads2, id]
+    by_cases h1 : isNone nt = true <;> by_cases h2 : isNone r.numWorkers = true <;> cases hm : r.mpi <;>
+      simp [h1, h2, hm, bind_assoc]
   cases sched <;> simp [outDir, headerOptions, headerLine, headerPrefix]
   all_goals
     split
